@@ -3192,7 +3192,8 @@ func (dsc *dataStoreCommand) sortPatternUnlocked(pattern, element string) (val s
 	return string(strBytes), true
 }
 
-func (dsc *dataStoreCommand) sort(sourceKeyName, byPattern, destKeyName string, startAt, count int, getPatterns []string, limit, desc, alpha bool) (output respValue) {
+func (dsc *dataStoreCommand) sort(sourceKeyName, byPattern, destKeyName string, startAt, count int, getPatterns []string, limit, desc, alpha, hasBy, store bool) (output respValue) {
+	// an empty BY pattern or destination name is still a pattern / a name
 	dsc.lock()
 	defer dsc.unlock()
 
@@ -3233,12 +3234,13 @@ func (dsc *dataStoreCommand) sort(sourceKeyName, byPattern, destKeyName string, 
 	}
 
 	dontSort := false
-	if list == nil && destKeyName != "" && byPattern != "" && !strings.Contains(byPattern, "*") {
+	if list == nil && store && hasBy && !strings.Contains(byPattern, "*") {
+		hasBy = false
 		// a set has no order of its own: when the result is stored, redis sorts it as text
 		byPattern = ""
 		alpha = true
 	}
-	if byPattern == "" {
+	if !hasBy {
 		// without BY the elements themselves are the sort keys
 		for idx, val := range vals {
 			val.sortByStr = val.data
@@ -3306,7 +3308,8 @@ func (dsc *dataStoreCommand) sort(sourceKeyName, byPattern, destKeyName string, 
 			start = 0
 		}
 
-		if count < 0 {
+		if count < 0 || count > len(vals) {
+			// also keeps start + count from overflowing
 			count = len(vals)
 		}
 
@@ -3340,7 +3343,7 @@ func (dsc *dataStoreCommand) sort(sourceKeyName, byPattern, destKeyName string, 
 		}
 	}
 
-	if destKeyName != "" {
+	if store {
 		// the result replaces whatever the destination held; an empty result deletes it
 		dsc.ds.data.remove(destKeyName)
 		if len(a) == 0 {
